@@ -8,6 +8,8 @@ from props.codec import oracle_eq
 def run(ctx, model):
     from props import kernels
     kernels.run_boolwin(ctx, model, "C01")
+    kernels.run_msgs(ctx, model, "C01")
+    kernels.run_readreply(ctx, model, "C01")
     rng = ctx.rng
     n = ctx.budget(60, 700)
     for i in range(n):
